@@ -600,13 +600,17 @@ fn ts_failure_cause(path: &str, content: &str) -> &'static str {
             }
         }
     }
+    // F11: `friend(n: -5)` gets the alias `friend____n___l_-5`, printed as an unquoted property name
+    if content.contains("___l_-") {
+        return "negative-int-alias";
+    }
     if content.matches("*/").count() > content.matches("/**").count() + content.matches("/* ").count() {
         return "doc-comment-terminator";
     }
     "other"
 }
 
-fn analyse_artifacts(art_dir: &str, artifacts: &BTreeMap<String, Vec<u8>>, sources: &[String]) -> String {
+fn analyse_artifacts(mode: &str, art_dir: &str, artifacts: &BTreeMap<String, Vec<u8>>, sources: &[String]) -> String {
     // every path relative to the project directory
     let mut paths: Vec<String> = vec![];
     let mut imports: Vec<(String, String)> = vec![];
@@ -642,34 +646,39 @@ fn analyse_artifacts(art_dir: &str, artifacts: &BTreeMap<String, Vec<u8>>, sourc
     let rel_imports: Vec<&(String, String)> = imports.iter().filter(|(_, s)| is_relative(s)).collect();
     let resolved: Vec<String> = rel_imports.iter().map(|(f, s)| resolve(f, s)).collect();
     let bare: BTreeSet<&str> = imports.iter().filter(|(_, s)| !is_relative(s)).map(|(_, s)| s.as_str()).collect();
+    if mode == "p" {
+        // parse oracle: the list of artifacts that are not a TypeScript module / not JSON
+        return format!("ok\t{}\tfiles={}", hexlist(failures.iter().map(|s| s.as_str())), paths.len());
+    }
     format!(
-        "ok\t{}\t{}\t{}\t{}\t{}\t{}\t{}",
+        "ok\t{}\t{}\t{}\t{}\t{}\t{}",
         hexlist(resolved.iter().map(|s| s.as_str())),
         hexlist(paths.iter().map(|s| s.as_str())),
         hexlist(sources.iter().map(|s| s.as_str())),
         hexlist(rel_imports.iter().map(|(f, _)| f.as_str())),
         hexlist(rel_imports.iter().map(|(_, s)| s.as_str())),
-        hexlist(failures.iter().map(|s| s.as_str())),
         hexlist(bare.iter().copied()),
     )
 }
 
 fn run_arts(f: &[&str]) -> String {
     match f {
-        ["arts", wire] => {
+        [op @ ("artsp" | "artsi"), wire] => {
+            let mode = &op[4..];
             let Some(p) = from_wire(wire) else { return "bad-wire".into() };
             let files = render(&p, &RenderOpts::default());
             let out = compile_files(&files);
             match &out.result {
                 CompileResult::Ok(_) => {
                     let sources: Vec<String> = files.keys().map(|k| k.to_string_lossy().to_string()).collect();
-                    analyse_artifacts(&p.options.artifact_dir(), &out.artifacts, &sources)
+                    analyse_artifacts(mode, &p.options.artifact_dir(), &out.artifacts, &sources)
                 }
                 CompileResult::Diagnostics(ds) => format!("rejected\t{}", hexs(&ds[0].message)),
                 CompileResult::Panic(m) => format!("panic\t{}", panic_sig(m)),
             }
         }
-        ["artsdemo", name] => {
+        [op @ ("artsdemop" | "artsdemoi"), name] => {
+            let mode = &op[8..];
             let Some(files) = load_demo(name) else { return "no-demo".into() };
             let out = compile_files(&files);
             match &out.result {
@@ -685,7 +694,7 @@ fn run_arts(f: &[&str]) -> String {
                         .trim_end_matches('/')
                         .to_string();
                     let sources: Vec<String> = files.keys().map(|k| k.to_string_lossy().to_string()).collect();
-                    analyse_artifacts(&format!("{base}/__isograph"), &out.artifacts, &sources)
+                    analyse_artifacts(mode, &format!("{base}/__isograph"), &out.artifacts, &sources)
                 }
                 CompileResult::Diagnostics(ds) => format!("rejected\t{}", hexs(&ds[0].message)),
                 CompileResult::Panic(m) => format!("panic\t{}", panic_sig(m)),
@@ -728,7 +737,8 @@ fn gen_arts(r: &mut Rng, i: u64) -> Vec<String> {
     if r.chance(1, 4) {
         p.options.artifact_directory = Some("generated/out".to_string());
     }
-    vec![format!("arts\t{}", to_wire(&p))]
+    let w = to_wire(&p);
+    vec![format!("artsp\t{w}"), format!("artsi\t{w}")]
 }
 
 // ---------------------------------------------------------------------------------------------
@@ -1132,7 +1142,7 @@ fn main() {
         let r = std::panic::catch_unwind(std::panic::AssertUnwindSafe(|| match f.first().copied().unwrap_or("") {
             "ovl" | "ovlnc" => run_overloads(f),
             "hole" => run_holes(f),
-            "arts" | "artsdemo" => run_arts(f),
+            "artsp" | "artsi" | "artsdemop" | "artsdemoi" => run_arts(f),
             "det" | "detdiag" | "detdup" => run_det(f),
             "cm" | "co" | "raw" | "watch" => run_crash(f),
             // debugging aid: write the rendered project below /tmp/arts/<name>
